@@ -504,6 +504,7 @@ impl<'a> Sim<'a> {
 
     /// Called whenever an operation completes: check it was allowed to, and with what.
     fn on_completions(&mut self) {
+        self.tr.update(&mut self.w);
         for i in 0..self.mops.len() {
             let done = self.w.ops[i].done_step;
             let res = self.w.ops[i].res.clone();
@@ -525,6 +526,11 @@ impl<'a> Sim<'a> {
                 OpKind::Pub0 => {
                     if res != OpRes::Ok {
                         self.fail("C06/qos0-not-ok", format!("QoS 0 publish {i} returned {res:?}"));
+                    } else if !self.tr.on_wire(i) {
+                        self.fail(
+                            "C06/qos0-completed-before-written",
+                            format!("QoS 0 publish {i} completed although its PUBLISH has not been accepted in full by the transport yet"),
+                        );
                     }
                 }
                 _ => match (&m.expected, m.final_step) {
